@@ -61,8 +61,19 @@ def mutate(rng, fr, prec=None, force=None):
     """one mutation of a copy; returns (frame, kind, detail)"""
     g = copy.deepcopy(fr)
     kinds = ['none', 'value', 'value-small', 'value-within', 'value-beyond', 'name', 'dtype', 'position', 'rows',
-             'extra', 'drop', 'row-filtered-out', 'null-in-condition-column']
+             'extra', 'drop', 'row-filtered-out', 'null-in-condition-column', 'na-text']
     kind = force or rng.choice(kinds)
+    if kind == 'na-text':
+        # the reference holds a text that merely looks like a missing value (NA, n/a, null ...: not one of the documented
+        # null spellings), the actual frame a real null in that cell
+        cands = [(ci, ri) for ci, c in enumerate(g['cols']) if c['fam'] in ('object-str', 'string', 'str')
+                 for ri in range(len(c['cells']))]
+        if not cands:
+            return g, 'none', None
+        ci, ri = rng.choice(cands)
+        fr['cols'][ci]['cells'][ri] = rng.choice(['NA', 'n/a', 'null', 'None', 'N/A', '<NA>', 'nan'])
+        g['cols'][ci]['cells'][ri] = None
+        return g, kind, (g['cols'][ci]['name'], ri)
     if kind in ('value-within', 'value-beyond'):
         # the reference cell is put on the grid of the precision, the actual one 0.2 / 0.7 grid steps above it
         p = 6 if prec is None else prec
@@ -239,6 +250,17 @@ class C05(core.Prop):
                 ref['cols'].append({'name': 'c%d' % len(ref['cols']), 'fam': fam,
                                     'cells': [rng.randint(-50, 50) / 4 for _ in range(ref['nrows'])]})
             force = rng.choice(['value-within', 'value-beyond'])
+        if force is None and rng.random() < 0.04:
+            # a text that merely looks like a missing value against a real null, mostly through the CSV entry point
+            if not any(c['fam'] in ('object-str', 'string', 'str') for c in ref['cols']):
+                if ref['nrows'] == 0:
+                    ref['nrows'] = 2
+                    for c in ref['cols']:
+                        c['cells'] = cx.gen_cells(rng, c['fam'], 2)
+                        c['cells'] = [None if (isinstance(x, float) and math.isinf(x)) else x for x in c['cells']]
+                ref['cols'].append({'name': 'c%d' % len(ref['cols']), 'fam': 'object-str',
+                                    'cells': [rng.choice(['a', 'b', 'abc']) for _ in range(ref['nrows'])]})
+            force = 'na-text'
         act, kind, detail = mutate(rng, ref, precision, force)
 
         def flag():
@@ -253,6 +275,11 @@ class C05(core.Prop):
             if r < 0.9:
                 return rng.sample(names, rng.randint(1, len(names)))
             return {'fn_except': rng.sample(names, rng.randint(0, max(0, len(names) - 1)))}
+        if kind == 'na-text':
+            return {'kind': 'pair', 'ref': ref, 'act': act, 'mut': kind, 'detail': detail, 'check_data': None, 'check_types': flag(),
+                    'check_order': None, 'check_extra_cols': None, 'sortby': None, 'condition': None, 'precision': precision,
+                    'act_index': None, 'ref_index': None, 'type_matching': rng.choice(LEVELS),
+                    'entry': rng.choice(['csv', 'csv', 'csv', 'parquet', 'memory'])}
         return {'kind': 'pair', 'ref': ref, 'act': act, 'mut': kind, 'detail': detail,
                 'check_data': flag(), 'check_types': flag(), 'check_order': flag(), 'check_extra_cols': flag(),
                 'sortby': rng.choice([None, None, None, [ref['cols'][0]['name']]]),
@@ -262,7 +289,8 @@ class C05(core.Prop):
                 'act_index': rng.choice([None, None, None, None, 'offset', 'reversed', 'strings', 'duplicates']),
                 'ref_index': rng.choice([None, None, None, None, None, None, 'offset', 'duplicates']),
                 'type_matching': rng.choice(LEVELS),
-                'entry': rng.choice(['memory', 'memory', 'parquet', 'csv'])}
+                'entry': rng.choice(['csv', 'csv', 'csv', 'parquet', 'memory']) if kind == 'na-text' else
+                rng.choice(['memory', 'memory', 'parquet', 'csv'])}
 
     def nontrivial_key(self, case):
         if case['kind'] == 'round':
@@ -448,7 +476,14 @@ class C05(core.Prop):
                         r.assertDataFramesEqual(act_df, ref_df, **kw)
                     else:
                         ext = 'parquet' if entry == 'parquet' else 'csv'
-                        refpath = os.path.join(d, 'ref.' + ext)
+                        # (every case of a run writes its reference to the same path: files regenerated in place)
+                        if getattr(self, '_refdir', None) is None:
+                            self._refdir = tempfile.mkdtemp(prefix='c05ref_')
+                            import atexit
+                            atexit.register(lambda p_=self._refdir: shutil.rmtree(p_, ignore_errors=True))
+                        refpath = os.path.join(self._refdir, 'ref.' + ext)
+                        if os.path.exists(refpath):
+                            os.remove(refpath)
                         if ext == 'parquet':
                             ref_df.to_parquet(refpath)
                         else:
@@ -468,6 +503,11 @@ class C05(core.Prop):
             if entry != 'memory':
                 # file entry points: "never an internal error" (CSV loses dtypes by design), and "the same columns": an actual
                 # frame with a column the reference lacks never compares as correct, whatever the other options say
+                if case['mut'] == 'na-text' and res.get('passed') and case['check_data'] is None and not case['condition'] \
+                        and case['detail'][0] in [c['name'] for c in case['act']['cols']]:
+                    fail('verdict', 'entry %s: the reference holds the text %r where the actual frame has a null, and they compare as correct'
+                         % (entry, [c['cells'][case['detail'][1]] for c in case['ref']['cols'] if c['name'] == case['detail'][0]]),
+                         'verdict:false-pass:na-text:file-entry')
                 rnames = {c['name'] for c in case['ref']['cols']}
                 extra = [c['name'] for c in case['act']['cols'] if c['name'] not in rnames]
                 if extra and res.get('passed'):
